@@ -517,7 +517,7 @@ func (db *ContractDB) allowPanic(fn string) bool {
 }
 
 var clauseKeywords = map[string]bool{
-	"assert_before_call": true, "writers": true, "callers": true, "globalinit": true, "dominated": true, "hint": true, "ghostsum": true, "assert_at_unlock": true, "assert_after_store": true, "assume_after_lock": true, "apply_after_lock": true, "opaque": true, "apply": true, "reveal": true, "guard": true, "lock": true, "lockorder": true, "pure": true, "lemma": true, "func": true, "props": true, "safety": true,
+	"assert_before_call": true, "writers": true, "callers": true, "globalinit": true, "dominated": true, "sequence": true, "hint": true, "ghostsum": true, "assert_at_unlock": true, "assert_after_store": true, "assume_after_lock": true, "apply_after_lock": true, "opaque": true, "apply": true, "reveal": true, "guard": true, "lock": true, "lockorder": true, "pure": true, "lemma": true, "func": true, "props": true, "safety": true,
 	"requires": true, "ensures": true, "let": true, "assigns": true, "loop": true, "invariant": true, "backedge": true, "init": true, "exit": true,
 	"decreases": true, "allow_panic": true, "modular": true, "init_context": true, "entry": true, "option": true, "uses": true, "end": true,
 }
@@ -657,7 +657,7 @@ func (db *ContractDB) addClauses(pkg string, clauses []string, path string) erro
 				return err
 			}
 			db.sums = append(db.sums, &GhostSum{Name: hd[0], MapType: TypeExpr{hd[1]}, Weight: e, Pkg: pkg})
-		case "writers", "callers", "globalinit", "dominated":
+		case "writers", "callers", "globalinit", "dominated", "sequence":
 			fc, err := parseFrameClause(kw, pkg, props, rest)
 			if err != nil {
 				return err
